@@ -54,6 +54,8 @@ func mkC04() *Scenario {
 		if arg.Init == "leeching" {
 			w.Cfg.MaxPeerDial = 1
 		}
+		// handlers that answer a caller (Stats) are split in front of the reply send
+		torrent.VerifYieldReplies = true
 		w.OpenSession()
 		g := Gen(c04Layout())
 		w.AddTorrent(g, nil)
@@ -125,6 +127,10 @@ func mkC04() *Scenario {
 		}
 		add("Announce", func(w *World) { w.Launch("Announce", func() any { w.Tor.Announce(); return nil }) })
 		add("AddPeer", func(w *World) { w.Launch("AddPeer", func() any { return w.Tor.AddPeer("10.0.0.77:6000") }) })
+		add("Stats", func(w *World) { w.Launch("Stats", func() any { return w.Tor.Stats().Status }) })
+		add("AddTracker", func(w *World) { w.Launch("AddTracker", func() any { return w.Tor.AddTracker("http://10.7.7.7/announce") }) })
+		// remove ends the torrent (and the history): its loop must take the close and exit
+		add("Remove", func(w *World) { w.Launch("Remove", func() any { return w.S.RemoveTorrent(w.Tor.ID(), true) }) })
 		if arg.Init == "leeching" {
 			// two addresses whose dials stay in flight; with MaxPeerDial 1 the second one waits in the address list
 			add("AddPeers2", func(w *World) {
@@ -354,7 +360,7 @@ func TestC04(t *testing.T) {
 	if core.Thorough() {
 		depth, devs = 4, 1
 	}
-	rep.Rule = fmt.Sprintf("every sequence of %d operations over {Start,Stop,Verify,Seed,Announce,AddPeer,Corrupt0,DeleteFile1,DeleteAll} (enabled ones) from initial states {fresh, seeded+stopped, partial+stopped} and of one operation less (plus AddPeers2: two addresses with hanging dials, MaxPeerDial 1) from {leeching: running with a connected peer that holds one piece}, each followed by the convergence suffix; plus every execution with <=%d race deviation (a command delivered before the drain finished, or a younger internal event before an older one)", depth, devs)
+	rep.Rule = fmt.Sprintf("every sequence of %d operations over {Start,Stop,Verify,Seed,Announce,AddPeer,Stats,AddTracker,Remove,Corrupt0,DeleteFile1,DeleteAll} (enabled ones) from initial states {fresh, seeded+stopped, partial+stopped} and of one operation less (plus AddPeers2: two addresses with hanging dials, MaxPeerDial 1) from {leeching: running with a connected peer that holds one piece}, each followed by the convergence suffix; plus every execution with <=%d race deviation (a command delivered before the drain finished, or a younger internal event before an older one)", depth, devs)
 	rep.Assumptions = []string{"one torrent, one honest seed, one auto-answering tracker", "handlers are atomic (loop ownership; checked by C20)", "workers run to their next blocking point after every action"}
 	var runs []Run
 	for _, init := range []string{"fresh", "seeded", "partial"} {
